@@ -1,6 +1,7 @@
 package main
 
 import (
+	"os"
 	"fmt"
 	"strconv"
 	"strings"
@@ -100,10 +101,33 @@ func (v *Verifier) expandConstructs() []string {
 				errs = append(errs, fmt.Sprintf("construct %s: unknown kind %q", row.Name, row.Kind))
 				continue
 			}
-			_ = argsOK
 			// (*Statement).N
-			c := mk(stmtKey, props)
+			c := mk(stmtKey, append([]string{"C02"}, props...))
 			addClause(c, "requires", "", "recv", "s != nil")
+			// data-structure invariant of the Code tree (C02, C11, C12 rely on it): the builder may assume it and
+			// must re-establish it, given well-formed arguments
+			if !fn.isFunc && os.Getenv("JVC_TREEOK") != "" {
+				switch row.Kind {
+				case "group":
+					params := sfn.Params[1:]
+					if sfn.Signature.Variadic() {
+						argsOK = fmt.Sprintf("forall j int :: { %s[j] } (0 <= j && j < len(%s)) ==> wfC(%s[j])", params[0].Name(), params[0].Name(), params[0].Name())
+					} else {
+						var ps []string
+						for _, p := range params {
+							ps = append(ps, "wfC("+p.Name()+")")
+						}
+						argsOK = strings.Join(ps, " && ")
+					}
+				case "tokenany":
+					argsOK = "supportedLit(" + sfn.Params[1].Name() + ")"
+				}
+				addClause(c, "requires", "", "tree", "treeOK()", "treeOK")
+				if argsOK != "" && os.Getenv("JVC_DROP_ARGS") == "" {
+					addClause(c, "requires", "", "args", argsOK)
+				}
+				addClause(c, "ensures", "C02", "tree", "treeOK()", "treeOK")
+			}
 			addMod(c, "*s", "tail(*s)")
 			if fn.isFunc {
 				addMod(c, "calls[f]")
